@@ -138,6 +138,13 @@ func (o *Obligation) asserts(sliced bool, extra ...*Term) []*Term {
 	}
 	sl = elimDiv(sl)
 	if !o.MustSat {
+		// skolemise every assertion: afterwards all quantifiers are positive
+		// universals and every witness is a visible constant
+		for i, a := range sl {
+			if quantInside(a) {
+				sl[i] = skolemPos(a)
+			}
+		}
 		sl = Instantiate(sl, 2, 48)
 	}
 	return sl
